@@ -32,8 +32,10 @@ def spell(draw, g):
 
 @st.composite
 def sub_cmd(draw, depth=0):
-    k = draw(st.integers(0, 11))
+    k = draw(st.integers(0, 12))
     a = draw(exgen.rel_addr)
+    if k == 12:
+        k = 9
     if k <= 2:
         return {"c": "d", "a": a}
     if k <= 4:
@@ -46,7 +48,11 @@ def sub_cmd(draw, depth=0):
     if k == 8:
         return {"c": "y", "a": a, "r": "b"}
     if k == 9 and depth == 0:
-        return spell(draw, {"c": draw(st.sampled_from(["g", "v"])), "a": [], "pat": draw(exgen.simple_pat()), "cmds": [draw(sub_cmd(1))]})
+        # (a nested global with a range of its own marks lines the outer one is still waiting for)
+        na = draw(st.sampled_from([[], [], [["", exgen.term(["n", 1])], [",", exgen.term(["$"])]], [["", exgen.term(["%"])]], [["", exgen.term(["."])], [",", exgen.term(["."], ["+2"])]],
+                                   [["", exgen.term(["."])], [",", exgen.term(["$"])]], [["", exgen.term(["n", 1])], [",", exgen.term(["."])]], [["", exgen.term(["."])]],
+                                   [["", exgen.term([""], ["-1"])], [",", exgen.term(["."], ["+1"])]]]))
+        return spell(draw, {"c": draw(st.sampled_from(["g", "v"])), "a": na, "pat": draw(exgen.simple_pat()), "cmds": [draw(sub_cmd(1))]})
     return {"c": "d", "a": a}
 
 
@@ -92,6 +98,10 @@ def run_case(env, c):
     ed.cmd(c["g"])
     want = ed.text()
     nblk = ed.blocks_used
+    if nblk >= 1000 or ed.visits > 3000:
+        # a nested global whose range takes in what it inserts multiplies the text at every visit: minutes in the editor, and more text
+        # blocks than the reference was given
+        return Outcome(True, False, ["excluded_multiplying_nested_global"])
     ed2 = lined.Ed(pre)
     ed2.xrow = len(pre) - 1
     ed2.reg_put("a", "REG1\nREG2\n", 1)
